@@ -17,6 +17,22 @@ use crate::{
     },
 };
 
+/// Write a `src` value. The parser strips one `.wxml` / `.wxs` suffix from it,
+/// so a path that still ends in the suffix must be written with the suffix once more.
+fn write_src_quoted<'s, W: FmtWrite>(
+    stringifier: &mut Stringifier<'s, W>,
+    src: &StrName,
+    suffix: &str,
+) -> FmtResult {
+    if src.name.ends_with(suffix) {
+        let mut with_suffix = src.clone();
+        with_suffix.name.push_str(suffix);
+        stringifier.write_str_name_quoted(&with_suffix)
+    } else {
+        stringifier.write_str_name_quoted(src)
+    }
+}
+
 impl Stringify for Template {
     fn stringify_write<'s, W: FmtWrite>(&self, stringifier: &mut Stringifier<'s, W>) -> FmtResult {
         let globals = &self.globals;
@@ -25,7 +41,7 @@ impl Stringify for Template {
             stringifier.write_str(r#"import "#)?;
             stringifier.write_token("src", None, &i.src_location)?;
             stringifier.write_str(r#"="#)?;
-            stringifier.write_str_name_quoted(&i.src)?;
+            write_src_quoted(stringifier, &i.src, ".wxml")?;
             stringifier.write_token("/", None, &i.tag_location.close)?;
             stringifier.write_token(">", None, &i.tag_location.start.1)?;
         }
@@ -86,7 +102,7 @@ impl Stringify for Template {
                     stringifier.write_str(r#" "#)?;
                     stringifier.write_token("src", None, src_location)?;
                     stringifier.write_str(r#"="#)?;
-                    stringifier.write_str_name_quoted(src)?;
+                    write_src_quoted(stringifier, src, ".wxs")?;
                     stringifier.write_token("/", None, &tag_location.close)?;
                     stringifier.write_token(">", None, &tag_location.start.1)?;
                 }
@@ -654,7 +670,12 @@ impl Stringify for Element {
             }
             ElementKind::Include { path } => {
                 stringifier.write_str("include")?;
-                write_named_static_attr(stringifier, "src", &path.0, &path.1)?;
+                stringifier.write_str(" ")?;
+                stringifier.write_token("src", Some("src"), &path.0)?;
+                if path.1.name.len() > 0 {
+                    stringifier.write_str(r#"="#)?;
+                    write_src_quoted(stringifier, &path.1, ".wxml")?;
+                }
             }
             ElementKind::Slot {
                 name,
